@@ -4,6 +4,7 @@ CONSTANTS
   Fuel = 2
   Quarantine = {}
   Only = {}
+  Offsets = {0}
   Allow = {}
   Emit = TRUE
 INVARIANTS OneValue NothingDropped Terminates PrecedenceShape EmitReplay
